@@ -144,3 +144,18 @@ def writer_attr_reads(prog: Program, u: Unit):
             continue
         out[a] = node
     return out
+
+
+def no_stale_derived_state(prog: Program, cd: "Codecs", rep, rule="no-stale-derived-state"):
+    """Blocks and tracks are mutable (samples are edited in place, items added/removed). A value derived from them that is
+    memoised (cached_property / lru_cache) goes stale: sizes, segment tables and encodings would describe an earlier state."""
+    n = 0
+    for u in list(cd.units.values()) + list(cd.bad_units.values()):
+        c = u.cls
+        if c is None:
+            continue
+        for f in c.all_funcs():
+            n += 1
+            if f.kind == "cached":
+                rep.fail(rule, c.module.path.name, f"{c.name}.{f.name}", f.node, f"`{c.name}.{f.name}` is memoised ({', '.join(f.decorators)}) although the object it is derived from is mutable: after an in-place edit the segment table / size / encoding is stale")
+    rep.ok(rule, f"{n} methods of codec classes examined: none memoises a value derived from mutable state")
